@@ -10,9 +10,19 @@ for f in sorted(os.listdir(md)):
         table.update(json.load(open(os.path.join(md, f))))
 checks = []
 na = []
+import sys
+sys.path.insert(0, V)
+from harness import lean as _lean
+reg = _lean.load_registry()
+integrated = set(json.load(open(os.path.join(V, "tools", "integrated.json"))))
 for p in props:
     pid = p["id"]
     t = table.get(pid)
+    ready = (os.path.exists(os.path.join(V, "harness", "props", pid.lower() + ".py")) and reg.get(pid, {}).get("theorems")
+             and pid in integrated)
+    if t and t.get("claimed") and not ready:
+        na.append({"property_id": pid, "reason": "component delivered but not yet integrated into the driver/registry in this commit (see DESIGN.md section 5)"})
+        continue
     if not t or not t.get("claimed"):
         na.append({"property_id": pid, "reason": (t or {}).get("reason", "check not built yet in this round (planned, see DESIGN.md section 5)")})
         continue
